@@ -1,6 +1,7 @@
 (** C03: the token stream is the post-order record of the successful derivation only. *)
 From PegV Require Import Base.Tac Spec.Syntax Spec.Peg Model.Machine Model.Gen Model.Analyses Model.Emit Model.SEmit Model.Exec
-  Proofs.Forest Proofs.Top Proofs.SEmitFile Properties.Example.
+  Proofs.Forest Proofs.Top Proofs.SEmitFile Spec.WF Model.Optimize Model.Premises Proofs.OptSound Proofs.ParseTop Properties.Example.
+Local Open Scope nat_scope.
 
 (** After a successful parse the live tokens (Tokens() after Trim) are exactly the post-order
     flattening of the derivation forest the PEG semantics returns - which by construction contains
@@ -30,6 +31,27 @@ Theorem C03_generated_code_tokens :
         live st' = Syntax.flat kids ++ [(r, (0, p))] /\ Forall (inb 0 (length buf)) (live st').
 Proof. exact generated_code_tokens. Qed.
 Print Assumptions C03_generated_code_tokens.
+
+(** ... and with no side condition and no hypothesis that the semantics has a result (Proofs/ParseTop.v): for every grammar
+    with a well-formedness certificate, every combination of memo table / -inline / -switch ([tree_of sw g] is the
+    optimised tree), every input and every earlier parser state - when the grammar as written accepts a prefix with
+    derivation forest [f], every execution of the call Parse() makes returns true and the tokens it has recorded are the
+    post-order of [f]: nothing from abandoned alternatives or lookahead, the first rule over the consumed prefix last,
+    every token within the input. *)
+Theorem C03_generated_parser_tokens :
+  forall g tab rank, wf_b g tab rank = true -> good_grammar g ->
+  (forall r b, nth_error g r = Some (RBody b) -> ranges_ok b = true) ->
+  grammar_alt2 g -> closed_names g ->
+  forall ptx buf penv, good_buf buf -> valid_buf buf ->
+  forall memo inline sw rb st0,
+    nth_error g 0 = Some rb -> rb <> RNil ->
+    exists n res evs, peg_parse g ptx buf penv n 0 = Some (res, evs) /\
+      forall p f, res = Succ p f ->
+      forall out, xcall buf penv (mk_opts true memo inline (tree_of sw g)) (gen_fn (tree_of sw g) ptx inline) 0 (reset st0) out ->
+        exists st' kids, out = Ret true st' /\ pos st' = p /\ live st' = Syntax.flat f /\ f = [Node 0 0 p kids] /\
+          live st' = Syntax.flat kids ++ [(0, (0, p))] /\ Forall (inb 0 (length buf)) (live st').
+Proof. exact generated_parser_tokens. Qed.
+Print Assumptions C03_generated_parser_tokens.
 
 (** non-vacuity: on "aby" the first alternative R1 'x' is tried and abandoned (its R1, capture and
     action tokens are overwritten); 5 tokens remain *)
